@@ -167,6 +167,14 @@ class Evaluator(object):
         self.events.append(ev)
         return ev
 
+    def child(self):
+        """A side-effect-free reader for conditions and subjects (same constants policy, no inlining)."""
+        c = Evaluator(self.fns, inline_depth=0)
+        c.consts = getattr(self, 'consts', {})
+        c.new_const = getattr(self, 'new_const', None)
+        c.tyenv = dict(self.tyenv)
+        return c
+
     # ------------------------------------------------------------------ eval
     def run_fn(self, path, arg_terms=None, guards=(), chain=()):
         """Evaluate function `path` with parameters bound to arg_terms (or to vars named after
@@ -287,7 +295,7 @@ class Evaluator(object):
                     val = self.eval(s['init'], env, guards, fn, chain)
                     guards = guards + self.implied_guards(s['init'], env)
                 if s.get('els') is not None:
-                    sv = Evaluator(self.fns, inline_depth=0).eval(s['init'], dict(env), [], None, [])
+                    sv = self.child().eval(s['init'], dict(env), [], None, [])
                     extra = {'let': True, 'pat': s['pat'], 'ty': s['init'].get('ty'), 'subject': sv}
                     cs = 'let %s = %s' % (H.pat_term(s['pat'], True), show(val))
                     self.eval_block(s['els'], dict(env), guards + [Guard((s['sp'], 'else', 'if', cs, ('ctl', cs), extra))], fn, chain)
@@ -317,7 +325,7 @@ class Evaluator(object):
             ct = show(ctt)
             extra = None
             if e['cond'].get('k') == 'LetExpr':
-                sv = Evaluator(self.fns, inline_depth=0).eval(e['cond']['init'], dict(env), [], None, [])
+                sv = self.child().eval(e['cond']['init'], dict(env), [], None, [])
                 extra = {'let': True, 'pat': e['cond']['pat'], 'ty': e['cond']['init'].get('ty'), 'subject': sv}
             if e['then'].get('ty') == '!' or self.block_diverges(e['then']):
                 out.append(Guard((e['sp'], 'else', 'if', ct, ctt, extra)))
@@ -367,7 +375,7 @@ class Evaluator(object):
             return []
         if self.depth_limit <= 0:
             return []
-        sub = Evaluator(self.fns, inline_depth=0)
+        sub = self.child()
         args = [sub.eval(a, dict(env), [], None, []) for a in H.call_args(call)]
         params = target.get('params', [])
         if len(params) != len(args):
@@ -440,7 +448,7 @@ class Evaluator(object):
 
     def cond_term(self, e, env):
         # side-effect free evaluation of a condition under env
-        sub = Evaluator(self.fns, inline_depth=0)
+        sub = self.child()
         return sub.eval(e, dict(env), [], None, [])
 
     def cond_str(self, e, env):
@@ -467,7 +475,12 @@ class Evaluator(object):
         if k in ('Def', 'Call') and H.num_limit(node):
             return ('path', H.num_limit(node))
         if k == 'Def':
-            return ('path', norm_path(node.get('resolved') or node['path']))
+            cp = norm_path(node.get('resolved') or node['path'])
+            c = getattr(self, 'consts', {}).get(cp)
+            if c is not None and 'hir' in c and getattr(self, 'new_const', None) and self.new_const(cp) and len(chain) < 6:
+                # a constant the oracle vocabulary does not know is read through to its value
+                return self.eval(c['hir'], {}, guards, fn, list(chain) + ['const:' + cp])
+            return ('path', cp)
         if k == 'Lit':
             return ('lit', H.lit_str(node['v']))
         if k == 'Field':
@@ -575,7 +588,7 @@ class Evaluator(object):
             extra = None
             if node['cond'].get('k') == 'LetExpr':
                 n0 = len(self.events)
-                sv = Evaluator(self.fns, inline_depth=0).eval(node['cond']['init'], dict(env), [], None, [])
+                sv = self.child().eval(node['cond']['init'], dict(env), [], None, [])
                 extra = {'let': True, 'pat': node['cond']['pat'], 'ty': node['cond']['init'].get('ty'), 'subject': sv}
             c = self.eval(node['cond'], env, guards, fn, chain)
             if extra is not None and node['cond']['init'].get('k') in ('Call', 'MethodCall', 'Try', 'Local', 'Field', 'AddrOf', 'Unary'):
@@ -740,6 +753,24 @@ class Evaluator(object):
                 if rv is not None and rv[0] != 'ctl':
                     return rv
         return t
+
+
+def guard_lits(g):
+    """Canonical literals (subject, predicate) a structural guard contributes."""
+    out = []
+    for x in guard_strs(g):
+        m = re.match(r'^(if|unless)\((.*)\)$', x)
+        if m:
+            out.append((m.group(2), m.group(1) == 'if'))
+            continue
+        m = re.match(r'^case\((.*) ~ (.*?)\)$', x)
+        if m:
+            out.append((m.group(1), m.group(2)))
+    return out
+
+
+def lits_at(e):
+    return [l for g in e.guards for l in guard_lits(g)]
 
 
 def guard_strs(g):
